@@ -57,6 +57,10 @@ CORPORA = {
     "findbytes": dict(model="MC_FindBytes", quick=dict(SmallLen=7), thorough=dict(SmallLen=8), profiles=DEV_REL, place="both"),
     "hsession": dict(kind="mutate", gen="hsession_cases", gen_all_files=True, base=["hbuilder", "hfields"],
                      quick=dict(count=300), thorough=dict(count=5000), profiles=DEV_REL, place="end"),
+    "perm": dict(kind="mutate", gen="perm_cases", gen_all_files=True, base=["fields", "getters", "dst", "sized", "efi", "elf", "fb", "rsdp", "adv"],
+                 quick=dict(count=1500), thorough=dict(count=40000), profiles=DEV_REL, place="end"),
+    "hperm": dict(kind="mutate", gen="perm_cases", gen_all_files=True, base=["hfields", "hgetters", "hdst", "hwalk"],
+                  quick=dict(count=1000), thorough=dict(count=20000), profiles=DEV_REL, place="end"),
     "load": dict(model="MC_Load", quick=dict(MaxT=72), thorough=dict(MaxT=160), profiles=DEV_REL, place="both"),
     "walk": dict(model="MC_Walk", quick=dict(MaxT=32), thorough=dict(MaxT=40), profiles=DEV_REL, place="both"),
 }
@@ -101,7 +105,7 @@ CHECKS = {
     "C16": dict(corpora=["boxed", "ctor", "refslice"],
                 rule="new_boxed on all partitions of content of total length 0..MaxTotal into <= 3 slices x 3 header kinds (each also cloned); "
                      "every heap-allocated tag kind x content lengths 0..MaxContent constructed, cloned and dropped under a tracking allocator"),
-    "C09": dict(corpora=["hwalk", "hdst", "hfields", "hgetters", "hload", "hmut"],
+    "C09": dict(corpora=["hwalk", "hdst", "hfields", "hgetters", "hload", "hmut", "hperm"],
                 rule="all lazily chosen header-tag sequences (4 type/flag pairs, sizes 0..remaining+9), every header-tag kind at every "
                      "declared size 0..40, conformant tags; every call checked for crash/hang and extents inside the declared header"),
     "C10": dict(technique="TLA+ specification + TLC model checking + TLC trace validation of replayed cases; checksum law: Apalache on the specification "
@@ -123,7 +127,7 @@ CHECKS = {
     "C19": dict(thorough_extra=["mut"], corpora=["elf"],
                 rule="all (count 0..MaxN, entry size in ElfSizes, string-table index 0..n+1, section bytes in {0, n*es-1, n*es, n*es+8}, "
                      "raw-type rotation); names resolved through a string table mapped at a fixed external address"),
-    "C01": dict(corpora=["fields", "getters", "dst", "sized", "custom", "fb", "rsdp", "adv", "efi", "elf", "walk", "load", "mut"],
+    "C01": dict(corpora=["fields", "getters", "dst", "sized", "custom", "fb", "rsdp", "adv", "efi", "elf", "walk", "load", "mut", "perm"],
                 rule="union of the boot-information corpora (every kind, every declared size, all framebuffer type bytes, "
                      "all walks); every call of every session is checked for crash/hang and for extents inside the owning tag"),
     "C04": dict(thorough_extra=["mut", "session"], corpora=["fields", "getters", "fb", "rsdp"],
